@@ -26,6 +26,8 @@ structure DState where
   hdrNet : Tree.Net := .regtest
   /-- C03: the chain served before the last ingestion opportunity, and how many anchors it popped -/
   servedBefore : List Nat := []
+  /-- C08: the state before the ingestion of the current anchor began -/
+  preIngest : Option State := none
   /-- C06: interleaved page walk (address, limit, next token, first tip, collected so far, same tip, expected set) -/
   walk : Option (Addr × Nat × (Nat × Nat × OutPoint) × (Nat × Nat) × List Utxo × Bool × String) := none
   lastPopped : Nat := 0
@@ -232,6 +234,10 @@ def stepCanister (d : DState) (ws : List String) : DState × String :=
         | some (p, _) => (p.dropLast).map (·.blk)
         | none => []
       ({ d with st := some s', ghost := d.ghost ++ popped,
+                preIngest := if s'.utxos.ingesting.isSome then
+                    (if s.utxos.ingesting.isSome then d.preIngest
+                     else if s'.utxos.nextHeight == s.utxos.nextHeight then some s else none)
+                  else none,
                 servedBefore := s.unstable.mainChain.map CBlock.hash,
                 lastPopped := s'.utxos.nextHeight - s.utxos.nextHeight }, o)
     match s.ingestStable testnetBound budget.toNat! with
@@ -271,8 +277,33 @@ def stepCanister (d : DState) (ws : List String) : DState × String :=
       let desc := decide (coll.Pairwise (fun x y => x.height ≥ y.height))
       let nodup := decide ((coll.map (·.outpoint)).Nodup)
       let b (x : Bool) : Nat := if x then 1 else 0
+      -- known finding F11: outputs with vout >= 256 of one transaction are ordered differently in the
+      -- stable index (little-endian bytes) and on the unstable side (numerically)
+      let f11 := coll.any (fun u => u.outpoint.vout ≥ 256) || (expected.splitOn ":25").length > 1 || (expected.splitOn ":26").length > 1 || (expected.splitOn ":27").length > 1 || (expected.splitOn ":28").length > 1 || (expected.splitOn ":29").length > 1
       ({ d with walk := none },
-        s!"{tip.1} {canonUtxos coll} desc={b desc} nodup={b nodup} sametip={b same} ## {tip.1} {expected} desc=1 nodup=1 sametip=1")
+        s!"{tip.1} {canonUtxos coll} desc={b desc} nodup={b nodup} sametip={b same} ## {tip.1} {expected} desc=1 nodup=1 sametip=1" ++ (if f11 then " ## F11" else ""))
+  | ["pausedsame", addrs], some s =>
+    match d.preIngest with
+    | none => (d, "no-snapshot")
+    | some s0 =>
+      let obsVec (st : State) : List (String × String) :=
+        let i := st.blockchainInfo
+        let al := parseList addrs ','
+        [("info", s!"{i.height} {hash64 i.hash} {i.timestamp} {i.difficulty}")] ++
+        ((List.range al.length).zip al).flatMap (fun p =>
+          let a : State.AddrArg := .ok (strBytes p.2)
+          [(s!"utxos{p.1}", utxosAll st a .none_ Btc.Gen.maxUtxosPerResponse),
+           (s!"balance{p.1}", showBalance (st.getBalance a 0)),
+           (s!"utxos{p.1}c2", utxosAll st a (.minConf 2) Btc.Gen.maxUtxosPerResponse),
+           (s!"balance{p.1}c2", showBalance (st.getBalance a 2))]) ++
+        [("headers", showHeaders (st.getBlockHeaders Btc.Gen.maxBlockHeadersPerResponse 0 none))]
+      let same := match ((obsVec s0).zip (obsVec s)).find? (fun p => p.1.2 != p.2.2) with
+        | none => "same=1:-"
+        | some p => s!"same=0:{p.1.1}"
+      let lenSame := s0.blockchainInfo.utxosLength == s.blockchainInfo.utxosLength
+      -- specification (C08): every answer equals the answer before the ingestion began;
+      -- the utxos_length deviation is the known finding F10
+      (d, s!"{same} len={if lenSame then 1 else 0} ## same=1:- len=1" ++ (if same == "same=1:-" && !lenSame then " ## F10" else ""))
   | ["advance"], some s =>
     let k := d.lastPopped
     let onchain := d.servedBefore[k]? == some s.unstable.tree.root.hash
